@@ -3792,8 +3792,14 @@ def simplify_assign_immediate_return(source: str) -> str:
                 parsing.assignment_targets(assignment), ast.Name(id=str)
         ))
 
+        # Assigning to a global or nonlocal name is visible outside of this function
+        names_declared_elsewhere = {
+            name for node in core.walk(scope, (ast.Global, ast.Nonlocal)) for name in node.names
+        }
         names_assigned_only_once = tuple(
-            name for name, count in name_assign_counts.items() if count == 1
+            name
+            for name, count in name_assign_counts.items()
+            if count == 1 and name not in names_declared_elsewhere
         )
         name_template = ast.Name(id=names_assigned_only_once)
 
